@@ -20,7 +20,7 @@ import itertools
 
 import numpy as np
 
-from mc.core import fail, lib, HarnessError
+from mc.core import fail, lib, HarnessError, LibFailure
 
 LEVEL = "exploration"
 
@@ -830,7 +830,238 @@ def ev_guesses_big(case):
     return {"fails": fails[:20], "n": nev, "tags": tags, "sample": last}
 
 
-EVALUATORS = {"guesses_big": ev_guesses_big, "class": ev_class, "quad": ev_quad, "layout": ev_layout, "joint": ev_joint, "posterior": ev_posterior, "guesses": ev_guesses}
+# =============================================================================== object-reuse histories
+REUSE_SCRIPT = [0.5, 0.01, 0.99, 0.1, 0.9]
+
+
+def _canon(x):
+    """exact, nan-safe, comparable image of a result (floats by repr)"""
+    if x is None:
+        return None
+    if isinstance(x, (list, tuple)):
+        return ("seq",) + tuple(_canon(v) for v in x)
+    a = np.asarray(x)
+    if a.dtype == object:
+        return ("obj", repr(x))
+    return (tuple(a.shape),) + tuple(repr(float(v)) for v in a.reshape(-1))
+
+
+class _ReuseSpec:
+    """description of one object of a history: how to build a fresh equal one"""
+
+    def __init__(self, kind, **kw):
+        self.kind = kind
+        self.__dict__.update(kw)
+
+
+def _reuse_fresh(P, L, Posterior, spec, n):
+    """a freshly built object equal to the one described (fresh index lists, fresh arrays, fresh parts)"""
+    if spec.kind == "comp":
+        return build_component(P, spec.t, list(spec.idxs), [tuple(h) for h in spec.hs], "array", spec.idx_form)
+    if spec.kind == "joint":
+        return P.JointPrior(components=[_reuse_fresh(P, L, Posterior, s, n) for s in spec.parts], n_variables=n)
+    if spec.kind == "post":
+        return Posterior(likelihood=_reuse_likelihood(L, n), prior=_reuse_fresh(P, L, Posterior, spec.prior, n))
+    raise HarnessError(spec.kind)
+
+
+def _reuse_likelihood(L, n):
+    centre = [0.37 + 0.61 * i for i in range(n)]
+    ysig = [0.8 + 0.5 * i for i in range(n)]
+    return L.GaussianLikelihood(np.array(centre), np.array(ysig), forward_model=lambda th: np.asarray(th, dtype=float).copy(), forward_model_jacobian=lambda th: np.eye(n))
+
+
+def _reuse_use(obj, spec, thetas, label):
+    """stand-alone use of one object: value, gradient at every theta, bounds, one scripted draw (posterior: value, gradient,
+    cost, cost_gradient, initial guesses).  Returns {quantity: canonical result}; number of library calls"""
+    from mc.ref import c06_ref as R
+
+    out, nev = {}, 0
+    if spec.kind == "post":
+        with lib(f"{label}-call"):
+            out["value"] = _canon([obj(th) for th in thetas])
+        with lib(f"{label}-gradient"):
+            out["gradient"] = _canon([obj.gradient(th) for th in thetas])
+        with lib(f"{label}-cost"):
+            out["cost"] = _canon([obj.cost(th) for th in thetas])
+        with lib(f"{label}-cost_gradient"):
+            out["cost_gradient"] = _canon([obj.cost_gradient(th) for th in thetas])
+        with R.scripted_prior_rng(REUSE_SCRIPT):
+            with lib(f"{label}-generate_initial_guesses"):
+                out["initial-guesses"] = _canon([np.asarray(g) for g in obj.generate_initial_guesses(n_guesses=2, prior_samples=3)])
+        return out, 4 * len(thetas) + 1
+    with lib(f"{label}-call"):
+        out["value"] = _canon([obj(th) for th in thetas])
+    with lib(f"{label}-gradient"):
+        out["gradient"] = _canon([np.array(obj.gradient(th), copy=True) for th in thetas])
+    with lib(f"{label}-bounds"):
+        out["bounds"] = _canon([norm_bound(b) for b in obj.bounds])
+    with R.scripted_prior_rng(REUSE_SCRIPT):
+        with lib(f"{label}-sample"):
+            out["sample"] = _canon(np.array(obj.sample(), copy=True))
+    return out, 2 * len(thetas) + 2
+
+
+def ev_reuse(case):
+    """object-reuse history on one configuration (components = consecutive blocks of an index permutation, one type each):
+    build the components, use them stand-alone, build a JointPrior, use everything, build a second JointPrior from the SAME
+    objects (same order), a third (reversed order), a fourth (rotated order), a fifth from a subset of the objects plus one
+    new component, posteriors on two of them, draw initial guesses; after every step every object built so far must give
+    exactly what a freshly built equal object gives, and what the caller passed in must be unchanged."""
+    import inference.priors as P
+    import inference.likelihoods as L
+    from inference.posterior import Posterior
+    import mpmath as mp
+
+    mp.mp.dps = 50
+    perm, seed = case["perm"], case["seed"]
+    n = len(perm)
+    fails, tags, slack, nev = [], set(), {}, 0
+    seen = set()
+    last = None
+
+    def add(key, what, **kw):
+        if key not in seen:
+            seen.add(key)
+            fails.append(fail(key, what, **kw))
+
+    for comps, types in joint_configs(perm):
+        history, det0 = [], {}
+        try:
+            k = len(comps)
+            laws = {}
+            cspecs = []
+            for idxs, t in zip(comps, types):
+                hs = [hyper(t, i, seed) for i in idxs]
+                for i, h in zip(idxs, hs):
+                    laws[i] = (t, h)
+                cspecs.append(_ReuseSpec("comp", t=t, idxs=list(idxs), hs=hs, idx_form="list", name=f"{CLASSNAME[t]}{list(idxs)}", cls=CLASSNAME[t]))
+            vecs, nin = joint_thetas(laws, n)
+            thetas = vecs[: nin + 2]
+            det0 = dict(components=[{"type": t, "indices": c} for c, t in zip(comps, types)], seed=seed)
+            ngauss = sum(1 for t in types if t == "G")
+            cfgclass = f"k={k},same-type-components={max(types.count(t) for t in 'GEU')},n={n}"
+            live = []  # (spec, object)
+            broken = set()
+            history = []
+            # what the caller holds
+            held_idx, held_idx_copy, held_hyp, held_hyp_copy = [], [], [], []
+
+            def verify(step):
+                """every live object == a fresh equal object, caller-held inputs unchanged"""
+                nonlocal nev
+                for spec, obj in live:
+                    with lib(f"fresh-{spec.cls}-construct"):
+                        fr = _reuse_fresh(P, L, Posterior, spec, n)
+                    got, c1 = _reuse_use(obj, spec, thetas, f"reused-{spec.cls}")
+                    exp, c2 = _reuse_use(fr, spec, thetas, f"fresh-{spec.cls}")
+                    nev += c1 + c2
+                    for q in exp:
+                        if got[q] != exp[q] and (spec.name, q) not in broken:
+                            broken.add((spec.name, q))  # reported at the first step after which it differs
+                            add(f"reuse/{spec.cls}/{q}-differs-from-fresh-equal-object-after/{step}",
+                                f"history {history}: {spec.name} now gives {q} = {got[q]!r} but a freshly built equal object gives {exp[q]!r} (thetas {[t.tolist() for t in thetas]})",
+                                object=spec.name, quantity=q, observed=repr(got[q]), expected=repr(exp[q]), history=list(history), **det0)
+                for li, (a, b) in enumerate(zip(held_idx, held_idx_copy)):
+                    if type(a) is not type(b) or list(a) != list(b):
+                        add(f"reuse/caller-index-list-modified-after/{step}", f"history {history}: the index list passed for component {li} was {b!r} and is now {a!r}", observed=repr(a), expected=repr(b), history=list(history), **det0)
+                for li, (arrs, cps) in enumerate(zip(held_hyp, held_hyp_copy)):
+                    if any(not np.array_equal(a, b) for a, b in zip(arrs, cps)):
+                        add(f"reuse/caller-hyper-parameter-array-modified-after/{step}", f"history {history}: the hyper-parameter arrays passed for component {li} were {[c.tolist() for c in cps]} and are now {[a.tolist() for a in arrs]}", history=list(history), **det0)
+
+            # ---- step: build the components from caller-held index lists / arrays
+            objs = []
+            for spec in cspecs:
+                vi = [int(i) for i in spec.idxs]
+                arrs = [np.array([h[j] for h in spec.hs], dtype=float) for j in range(len(spec.hs[0]))]
+                held_idx.append(vi)
+                held_idx_copy.append(list(vi))
+                held_hyp.append(arrs)
+                held_hyp_copy.append([a.copy() for a in arrs])
+                with lib(f"{spec.cls}-construct"):
+                    if spec.t == "G":
+                        o = P.GaussianPrior(mean=arrs[0], sigma=arrs[1], variable_indices=vi)
+                    elif spec.t == "E":
+                        o = P.ExponentialPrior(beta=arrs[0], variable_indices=vi)
+                    else:
+                        o = P.UniformPrior(lower=arrs[0], upper=arrs[1], variable_indices=vi)
+                objs.append(o)
+                live.append((spec, o))
+            history.append("components-built")
+            verify("components-built")
+
+            def joint_step(order, step, extra=None):
+                """JointPrior from the existing component objects in the given order (+ optionally a new component)"""
+                parts = [objs[j] for j in order]
+                pspecs = [cspecs[j] for j in order]
+                if extra is not None:
+                    parts.append(extra[1])
+                    pspecs.append(extra[0])
+                given = list(parts)
+                with lib(f"JointPrior-construct-{step}"):
+                    jp = P.JointPrior(components=given, n_variables=n)
+                if len(given) != len(parts) or any(a is not b for a, b in zip(given, parts)):
+                    add(f"reuse/caller-component-list-modified-after/{step}", f"history {history}: the list of components passed to JointPrior was changed", history=list(history), **det0)
+                sp = _ReuseSpec("joint", parts=pspecs, name=f"JointPrior#{len(history)}({[s.name for s in pspecs]})", cls="JointPrior")
+                live.append((sp, jp))
+                history.append(f"{step}{[s.name for s in pspecs]}")
+                verify(step)
+                return sp, jp
+
+            ident = list(range(k))
+            j1 = joint_step(ident, "joint-built")
+            joint_step(ident, "second-joint-built-same-order")
+            j3 = joint_step(ident[::-1], "joint-built-reversed-order")
+            if k >= 3:
+                joint_step(ident[1:] + ident[:1], "joint-built-rotated-order")
+            if k >= 2:
+                # a subset of the existing objects + one NEW component (of the type of the first kept one: it is merged with it)
+                for drop in (k - 1, 0):
+                    keep = [j for j in ident if j != drop]
+                    tnew = cspecs[keep[0]].t
+                    dspec = cspecs[drop]
+                    hs = [hyper(tnew, i + 1, seed) for i in dspec.idxs]
+                    nspec = _ReuseSpec("comp", t=tnew, idxs=list(dspec.idxs), hs=hs, idx_form="list", name=f"new-{CLASSNAME[tnew]}{list(dspec.idxs)}", cls=CLASSNAME[tnew])
+                    with lib(f"{nspec.cls}-construct"):
+                        nobj = _reuse_fresh(P, L, Posterior, nspec, n)
+                    live.append((nspec, nobj))
+                    joint_step(keep, "joint-built-from-subset-plus-new-component", extra=(nspec, nobj))
+            # ---- posteriors on the first and the reversed joint prior
+            for which, (sp, jp) in (("first", j1), ("reversed", j3)):
+                with lib("Posterior-construct"):
+                    post = Posterior(likelihood=_reuse_likelihood(L, n), prior=jp)
+                live.append((_ReuseSpec("post", prior=sp, name=f"Posterior(GaussianLikelihood, {sp.name})", cls="Posterior"), post))
+                history.append(f"posterior-built-on-{which}-joint")
+                verify("posterior-built")
+            # ---- finally: the first joint prior and the components against the reference (not only against fresh objects)
+            ref = Ref(laws)
+            for (spec, obj), idxs in [(live[j], cspecs[j].idxs) for j in range(k)] + [((j1[0], j1[1]), list(range(n)))]:
+                for th in thetas[:nin]:
+                    with lib(f"reused-{spec.cls}-call"):
+                        v = obj(th)
+                    with lib(f"reused-{spec.cls}-gradient"):
+                        g = np.asarray(obj.gradient(th))
+                    nev += 2
+                    if g.shape != (len(idxs),):
+                        add(f"reuse/{spec.cls}/gradient-shape-at-end-of-history", f"history {history}: {spec.name} gradient has shape {g.shape} for {len(idxs)} variables", history=list(history), **det0)
+                        continue
+                    f2 = []
+                    ref.check_value(v, th, idxs, f"reuse/{spec.cls}/at-end-of-history", f2, slack, dict(det0, object=spec.name, history=list(history), theta=th.tolist()))
+                    ref.check_gradient_entries(g, th, list(enumerate(idxs)), f"reuse/{spec.cls}/at-end-of-history", f2, slack, dict(det0, object=spec.name, history=list(history), theta=th.tolist()))
+                    for f in f2:
+                        if f["key"] not in seen:
+                            seen.add(f["key"])
+                            fails.append(f)
+            tags.add(f"reuse {cfgclass} gaussian-components={min(ngauss, 2)}{'+' if ngauss >= 2 else ''} sorted={list(perm) == sorted(perm)}")
+            last = {"components": det0["components"], "history": list(history), "objects": len(live)}
+        except LibFailure as e:
+            add(f"reuse/{e.label}/raises:{e.exc_type}", f"history {history}: {e}", traceback=e.tb, history=list(history), **det0)
+        if len(fails) > 40:
+            break
+    return {"fails": fails[:25], "n": nev, "tags": tags, "slack": slack, "sample": last}
+
+
+EVALUATORS = {"reuse": ev_reuse, "guesses_big": ev_guesses_big,"class": ev_class, "quad": ev_quad, "layout": ev_layout, "joint": ev_joint, "posterior": ev_posterior, "guesses": ev_guesses}
 
 
 def run(ck):
@@ -877,6 +1108,12 @@ def run(ck):
             r = (pi + seed) % len(st)
             bcases.append({"prior": name, "seed": seed, "prior_samples": m, "n_guesses": [g for g in GUESS_BIG_NG if g <= m], "strides": st[r:] + st[:r], "offset": (3 * seed + pi) % m})
     ck.run_cases("guesses_big", bcases, chunk=1)
+    # ---- object-reuse histories: every index order x every cut into <=3 components x 3^k types
+    rperms = [list(perm) for n in range(1, 4) for perm in itertools.permutations(range(n))]
+    p4 = [list(perm) for perm in itertools.permutations(range(4))]
+    rperms += [p4[(7 * seed) % 24], p4[(7 * seed + 23) % 24]] if quick else p4
+    ck.run_cases("reuse", [{"perm": perm, "seed": seed} for perm in rperms], chunk=1)
+    nreuse = sum(sum(1 for _ in joint_configs(perm)) for perm in rperms)
     ck.rule = (
         "class: hyper-parameter lattice x theta lattice (interior / support edge / outside incl. one ulp either side) x 5-6 input forms x 5 quantiles; "
         "layout: every ordered selection of k<=4 of 4 indices per class; joint: every permutation of n<=%d variables cut into <=3 consecutive blocks "
@@ -885,12 +1122,19 @@ def run(ck):
         "joint configurations + exact stubs; guesses: all orderings of <=5 distinct scripted quantiles and all tied sequences over 3 quantiles x all "
         "n_guesses<=prior_samples x 5 priors; guesses_big: prior_samples in {200, 1000} x every n_guesses in {1, 2, 50, 100, 199, 200, 300, 999, 1000} (<= prior_samples) x 5 priors, the draws being "
         "the quantiles (k + 1/2)/prior_samples in a stride-permuted order (strides coprime with prior_samples, one per variable of a joint prior, rotated with the seed): the result is the n_guesses "
-        "best draws, in increasing cost.  Distinct = (evaluator, n, k, merged, index order sorted?, theta situation) etc."
-    ) % (nmax, nconf)
+        "best draws, in increasing cost.  reuse: object-reuse histories on %d configurations (every permutation of n<=3 variables, and %s of n=4, cut into <=3 components x 3^k types): "
+        "components built from caller-held index lists / arrays -> used stand-alone -> JointPrior -> second JointPrior from the SAME objects (same order) -> reversed order -> rotated order -> "
+        "two JointPriors from a subset of the objects plus one new component (merged with a kept one) -> Posteriors on the first and on the reversed joint prior; after EVERY step every object "
+        "built so far (components, joint priors, posteriors) is used stand-alone (value, gradient at 3 interior + 2 outside vectors, bounds, a scripted draw; posterior: value, gradient, cost, "
+        "cost_gradient, initial guesses) and must give exactly what a freshly built equal object gives; the caller's index lists, hyper-parameter arrays and component lists must be unchanged; "
+        "at the end the components and the first joint prior are also compared with the reference.  Distinct = (evaluator, n, k, merged, index order sorted?, theta situation) etc."
+    ) % (nmax, nconf, nreuse, "2 seed-rotated permutations" if quick else "every permutation")
     ck.assume("hyper-parameters and theta values are the listed finite lattices; joint hyper-parameters are distinct per (type, index) so that misrouting is visible")
     ck.assume("the generator seam replaces inference.priors.rng; a draw is 'distributed according to the density' iff F(draw at quantile u) = u on the alphabet {.01,.1,.5,.9,.99} (numpy's own transformation of uniform bits into variates is trusted)")
     ck.assume("guesses_big: costs of two draws closer than 1e-9 (1 + |cost|) are treated as a tie (either order accepted; the library orders by its double-precision cost)")
     ck.assume("outside the support a value <= -1e99 (or -inf) is accepted; on a finite edge of the support (null set) either convention is accepted; the gradient is compared only strictly inside the support")
     ck.assume("for a stand-alone component on a subset of indices, gradient/sample of length k in the listed index order (or full length by index for the gradient) are both accepted")
+    ck.assume("reuse: 'equal to a freshly built equal object' is bit-for-bit (same code, same inputs); the histories are the listed fixed step sequence, not all interleavings")
     ck.extra["joint_configurations"] = nconf
+    ck.extra["reuse_configurations"] = nreuse
     ck.extra["quantile_alphabet"] = U5
